@@ -934,6 +934,8 @@ def _rep(a, b):
 
 
 WITNESSES = [
+    ("early exit on np.allclose(a, b)", "batchie.distance.mse",
+     _rep("        return np.mean((a - b) ** 2)", "        if np.allclose(a, b):\n            return 0.0\n        return np.mean((a - b) ** 2)"), ["R5"]),
     ("end index misses +1", "batchie.distance_calculation", _rep("        end_index += chunk_index + 1", "        end_index += chunk_index"), ["R1"]),
     ("to_dense writes one triangle", "batchie.distance_calculation", _rep("            dense[self.col_indices[i], self.row_indices[i]] = self.values[i]\n", ""), ["R3"]),
     ("dedup guard removed", "batchie.distance_calculation",
